@@ -105,7 +105,8 @@ def run(P, rep, rule="R-UNIT"):
 
 
 FORBID_SPLIT = ("pop", "retain", "filter", "dedup", "truncate", "skip_while", "take_while", "rev", "split_terminator", "split_whitespace",
-                "rsplit", "trim_end_matches", "trim_start_matches", "strip_suffix", "strip_prefix", "splitn", "rsplitn", "skip", "take")
+                "rsplit", "trim_end_matches", "trim_start_matches", "strip_suffix", "strip_prefix", "splitn", "rsplitn", "skip", "take",
+                "trim", "trim_start", "trim_end", "trim_matches", "trim_ascii", "trim_ascii_start", "trim_ascii_end")
 
 
 def run_split_join(P, rep, rule="R-SPLITJOIN"):
@@ -120,7 +121,7 @@ def run_split_join(P, rep, rule="R-SPLITJOIN"):
     if "split" not in lasts:
         rep.viol(rule, "split", P.where(fn), "str::split(pattern) is not what produces the fields")
     elif bad:
-        rep.viol(rule, "split", P.where(fn), "fields produced by str::split are post-processed with %s: empty fields can be lost, so join no longer inverts split" % sorted(set(bad)))
+        rep.viol(rule, "split", P.where(fn), "the input or the fields produced by str::split are post-processed / tested through %s: fields (or whitespace-only inputs) can be lost, so join no longer inverts split" % sorted(set(bad)))
     else:
         rep.ok(rule, "split", P.where(fn), "result = input.split(pattern) collected as is")
     jk = "<liquid_lib::stdlib::filters::array::JoinFilter as liquid_core::parser::filter::Filter>::evaluate"
